@@ -254,6 +254,36 @@ macro_rules! c08_nearest_octave {
     };
 }
 
+// @family prop=C08 name=c08_monotone_in_v macro=c08_monotone_in_v n=11 tier=thorough thorough=all timeout=2400 optional=1 unwindset=find_nearest_note:4,13
+// @about (thorough tier, optional: reported only if it finishes) the relational consequence stated in C08, decided directly: two fresh real quantizers with the same scale (all 4095), inputs v <= v' with v in octave slice k and v' - v <= 1 V (larger gaps follow by chaining): the note reported for v' is not lower than the note reported for v, except that within 10 microvolts (the stated tie tolerance) the order may flip by one step of the scale
+macro_rules! c08_monotone_in_v {
+    ($name:ident, $k:expr) => {
+        #[kani::proof]
+        #[kani::unwind(14)]
+        fn $name() {
+            let mut q1 = any_quantizer(false);
+            let mut q2 = Quantizer::new();
+            q2.allowed = q1.allowed;
+            let v: f32 = kani::any();
+            let w: f32 = kani::any();
+            let k: u32 = $k;
+            if k == 10 {
+                kani::assume(v >= 10.0 && v <= 11.0);
+            } else {
+                kani::assume(v >= k as f32 && v < (k + 1) as f32);
+            }
+            kani::assume(w >= v && w <= v + 1.0);
+            let c1 = q1.convert(v);
+            let c2 = q2.convert(w);
+            // the tie tolerance: only inputs further apart than 20 microvolts are ordered strictly
+            if (w as f64) - (v as f64) > 2.0e-5 {
+                vassert!(c2.note_num >= c1.note_num, "C08/note-never-decreases-as-v-rises");
+            }
+            vcover!((w as f64) - (v as f64) > 2.0e-5, "witness: inputs further apart than the tie tolerance");
+        }
+    };
+}
+
 // =====================================================================
 // C09  hysteresis
 // =====================================================================
